@@ -499,7 +499,8 @@ Section MacCrypto.
     {| m_cfg := cf'; m_region := m_region m; m_max_power := m_max_power m; m_gain := m_gain m; m_state := st |}.
   Definition set_datarate (m : mac) (dr : N) : mac :=
     let cf := m_cfg m in
+    match uplink_dr (m_region m) dr with None => m | Some _ =>
     with_cfg m {| cf_data_rate := dr; cf_rx1_delay := cf_rx1_delay cf; cf_tx_power := cf_tx_power cf;
                   cf_rx1_dr_offset := cf_rx1_dr_offset cf; cf_rx2_data_rate := cf_rx2_data_rate cf;
-                  cf_rx2_frequency := cf_rx2_frequency cf; cf_adr := cf_adr cf |}.
+                  cf_rx2_frequency := cf_rx2_frequency cf; cf_adr := cf_adr cf |} end.
 End MacCrypto.
